@@ -68,7 +68,7 @@ func c20RawWait(p *c20Params) time.Duration {
 func (c20) ID() string    { return "C20" }
 func (c20) Level() string { return "exploration" }
 func (c20) Rule() string {
-	return "each case: a connection accepted by pa.NewListener over a simulated listener, with TLCP-only / TLS-only / dual configuration, and one of three clients: the real tlcp client, the real crypto/tls client (TLS 1.2/1.3), or a raw writer that sends a record (handshake, alert, application data or ChangeCipherSpec) with any major version byte 0..255 and stops after 0..12 bytes; with the real clients the application's first Write and first Read may come from two tasks at once; transport segmentation whole / random / one byte per read (so the 5 peeked bytes arrive in every split); the server application's first operation is Read or Write, with read buffers from 1 byte (below the peeked header) upwards. Oracle: ProtectedConn() is *tlcp.Conn iff the major byte is 0x01 and *tls.Conn iff 0x03 (configuration error when that side is not configured), every other byte gives the unsupported-protocol error; handshake and echo through the adapter give the same negotiated state and bytes as against the stack directly; a client that disconnects early gives an error, never a hang or panic - also for the other operation tried after the first one failed; a raw client that sent a whole header and then went away gives the error the stack gives when it is fed the same bytes directly. distinct = distinct parameter vectors; non-trivial = the adapter reached its decision"
+	return "each case: a connection accepted by pa.NewListener over a simulated listener, with TLCP-only / TLS-only / dual configuration, and one of three clients: the real tlcp client, the real crypto/tls client (TLS 1.2/1.3), or a raw writer that sends a record (handshake, alert, application data or ChangeCipherSpec) with any major version byte 0..255 and stops after 0..12 bytes; with the real clients the application's first Write and first Read may come from two tasks at once; transport segmentation whole / random / one byte per read (so the 5 peeked bytes arrive in every split); the server application's first operation is Read or Write, with read buffers from 1 byte (below the peeked header) upwards. Oracle: ProtectedConn() is *tlcp.Conn iff the major byte is 0x01 and *tls.Conn iff 0x03 (configuration error when that side is not configured), every other byte gives the unsupported-protocol error; handshake and echo through the adapter give the same negotiated state and bytes as against the stack directly; a client that disconnects early gives an error, never a hang or panic - also for the other operation tried after the first one failed; a raw client that sent a whole header and then went away gives the error the stack gives when it is fed the same bytes directly. Raw clients may also stay connected and silent for five seconds while the application has set a read deadline 400 ms ahead (its first Read must be back by then, with the error the stack gives directly); the configurations given to the listener may carry no certificates and name only GetConfigForClient. distinct = distinct parameter vectors; non-trivial = the adapter reached its decision"
 }
 func (c20) Components() (real, stub []string) {
 	return []string{"pa.listener, ProtocolSwitchServerConn, ProtocolDetectConn (instrumented)", "tlcp client+server (instrumented)", "crypto/tls client+server (real standard library code, one task per connection)"},
